@@ -199,6 +199,10 @@ class Writer:
             self.reader.feed_data(out)
         if self.srv.eof:
             self.reader.feed_eof()
+        elif not out and len(getattr(self.srv, "buf", b"")) > 0:
+            # nothing to answer yet and an incomplete PDU in the peer's buffer: the client announced more octets than it sent.
+            # The peer waits; the harness ends the wait by closing the connection (as a peer's idle timer would).
+            self.reader.feed_eof()
 
     async def drain(self) -> None:
         return None
@@ -323,6 +327,13 @@ def run(ctx: Ctx) -> int:
     behaviours = _behaviours(ctx, ml)
     if not ctx.thorough and len(behaviours) > 5000:
         behaviours = ctx.rng.sample(behaviours, 5000)
+    # longer handshakes than the exhaustive bound (the statement: any number of authentication legs): accepting servers, with and
+    # without a token in the last ack, every leg count up to 7
+    for legs in range(ml + 1, 8):
+        for last_tok in (0, 1):
+            acks = [{"k": "ack", "res": ["acc", "nack"], "sign": True, "tok": 1} for _ in range(legs - 1)]
+            acks.append({"k": "ack", "res": ["acc", "nack"], "sign": True, "tok": last_tok})
+            behaviours.append(({"legs": legs, "emptyAt": 0, "auth": True}, acks + [{"k": "response"}], {"pc": "done"}))
 
     dc = refdc.DC()
     dc.add_root_key(RKID, refdc.RootKeyInfo(ROOT, "SHA256", "DH"))
